@@ -32,6 +32,10 @@ structure Quirks where
   retSymbolAndConst : Bool := false
   /-- `apply_cse` puts the extracted definitions in front of a list whose right-hand sides read names the list binds -/
   cseHoistsOverBindings : Bool := false
+  /-- `return v` names the bits of a tuple-typed variable flat (`_ret.i`), `returns.bitvec` nested -/
+  retFlatNames : Bool := false
+  /-- `decode_output(int)`: the digits of `bin()` are padded on the right -/
+  formatOutcomeIntPadRight : Bool := false
   deriving Repr, DecidableEq, Inhabited
 
 def Quirks.none : Quirks := {}
@@ -49,5 +53,7 @@ def Quirks.ofList (l : List String) : Quirks :=
     dimacsSingleClause := l.contains "dimacsSingleClause"
     retSymbolAndConst := l.contains "retSymbolAndConst"
     cseHoistsOverBindings := l.contains "cseHoistsOverBindings" }
+    retFlatNames := l.contains "retFlatNames"
+    formatOutcomeIntPadRight := l.contains "formatOutcomeIntPadRight" }
 
 end QV
